@@ -13,6 +13,11 @@
 #include <nop/serializer.h>
 #include <nop/utility/fd_reader.h>
 #include <nop/utility/fd_writer.h>
+#include <nop/utility/stream_reader.h>
+#include <nop/utility/stream_writer.h>
+#include <istream>
+#include <ostream>
+#include <streambuf>
 #include "ref/genval.h"
 #include "vlib/reflect.h"
 #include "vlib/nopio.h"
@@ -81,6 +86,28 @@ struct FdServer {
   FdServer(int wfd, int rfd) : ser{wfd}, des{rfd}, receiver{&ser, &des} {}
 };
 
+// ---- stream transport through the shipped StreamReader / StreamWriter: two queue streambufs (request, reply); the reply buffer runs the server
+// when the client needs reply bytes that are not there yet, so everything stays on one thread. The stream objects live inside the
+// (de)serializers and are created per call over the persistent buffers (an istream that has seen EOF stays failed).
+struct QueueBuf : std::streambuf {
+  std::string data; size_t rpos = 0; std::function<void()> on_empty; char cur = 0;
+  int_type overflow(int_type c) override { if (!traits_type::eq_int_type(c, traits_type::eof())) data.push_back(traits_type::to_char_type(c)); return traits_type::not_eof(c); }
+  std::streamsize xsputn(const char* p, std::streamsize n) override { data.append(p, (size_t)n); return n; }
+  int_type underflow() override { if (rpos >= data.size() && on_empty) on_empty(); if (rpos >= data.size()) return traits_type::eof(); cur = data[rpos]; setg(&cur, &cur, &cur + 1); return traits_type::to_int_type(cur); }
+  int_type uflow() override { int_type c = underflow(); if (!traits_type::eq_int_type(c, traits_type::eof())) { rpos++; setg(nullptr, nullptr, nullptr); } return c; }
+  size_t unread() const { return data.size() - rpos; }
+};
+struct StClient {
+  nop::Serializer<nop::StreamWriter<std::ostream>> ser; nop::Deserializer<nop::StreamReader<std::istream>> des;
+  nop::SimpleMethodSender<nop::Serializer<nop::StreamWriter<std::ostream>>, nop::Deserializer<nop::StreamReader<std::istream>>> sender;
+  StClient(QueueBuf* req, QueueBuf* rep) : ser{req}, des{rep}, sender{&ser, &des} {}
+};
+struct StServer {
+  nop::Serializer<nop::StreamWriter<std::ostream>> ser; nop::Deserializer<nop::StreamReader<std::istream>> des;
+  nop::SimpleMethodReceiver<nop::Serializer<nop::StreamWriter<std::ostream>>, nop::Deserializer<nop::StreamReader<std::istream>>> receiver;
+  StServer(QueueBuf* req, QueueBuf* rep) : ser{rep}, des{req}, receiver{&ser, &des} {}
+};
+
 // ---- handler invocation log
 struct LogEntry { int iface, method, inst, tag; std::vector<Val> args; };
 inline std::vector<LogEntry>& hlog() { static std::vector<LogEntry> l; return l; }
@@ -107,6 +134,7 @@ struct MethodRow {
   int iface, method; const char* iname; const char* mname; uint64_t selector; int bits; bool bound; int inst_id, tag;
   CallResult (*invoke)(Client&, Rng&); CallResult (*invoke_fd)(FdClient&, Rng&);
   nop::Status<void> (*serve)(Server&); nop::Status<void> (*serve_fd)(FdServer&);
+  CallResult (*invoke_st)(StClient&, Rng&); nop::Status<void> (*serve_st)(StServer&);
   std::vector<Sch> arg_schemas; Sch (*ret_schema)(); Val (*expected_ret)(const std::vector<Val>&, int, int);
 };
 std::vector<MethodRow> rpc_methods();
